@@ -116,12 +116,10 @@ func newAllowList(k string, raw any, handleKey func(key string, value any) (bool
 			return nil, fmt.Errorf("config `%s` has invalid value (type %T): %v", k, rawValue, rawValue)
 		}
 
-		ipNet, err := netip.ParsePrefix(rawCIDR)
+		ipNet, err := parseAllowListCIDR(k, rawCIDR)
 		if err != nil {
-			return nil, fmt.Errorf("config `%s` has invalid CIDR: %s. %w", k, rawCIDR, err)
+			return nil, err
 		}
-
-		ipNet = netip.PrefixFrom(ipNet.Addr().Unmap(), ipNet.Bits())
 
 		tree.Insert(ipNet, value)
 
@@ -166,6 +164,25 @@ func newAllowList(k string, raw any, handleKey func(key string, value any) (bool
 	}
 
 	return &AllowList{cidrTree: tree}, nil
+}
+
+// parseAllowListCIDR parses an allow list key. IPv4-mapped IPv6 addresses are matched as IPv4, so an IPv4-mapped
+// prefix ::ffff:a.b.c.d/n is the IPv4 prefix a.b.c.d/(n-96). A mapped prefix shorter than /96 has no IPv4
+// equivalent and is refused.
+func parseAllowListCIDR(k, rawCIDR string) (netip.Prefix, error) {
+	ipNet, err := netip.ParsePrefix(rawCIDR)
+	if err != nil {
+		return netip.Prefix{}, fmt.Errorf("config `%s` has invalid CIDR: %s. %w", k, rawCIDR, err)
+	}
+
+	if ipNet.Addr().Is4In6() {
+		if ipNet.Bits() < 96 {
+			return netip.Prefix{}, fmt.Errorf("config `%s` has invalid CIDR: %s. IPv4-mapped prefix must be at least /96", k, rawCIDR)
+		}
+		ipNet = netip.PrefixFrom(ipNet.Addr().Unmap(), ipNet.Bits()-96)
+	}
+
+	return ipNet, nil
 }
 
 func getAllowListInterfaces(k string, v any) ([]AllowListNameRule, error) {
@@ -225,12 +242,12 @@ func getRemoteAllowRanges(c *config.C, k string) (*bart.Table[*AllowList], error
 			return nil, err
 		}
 
-		ipNet, err := netip.ParsePrefix(rawCIDR)
+		ipNet, err := parseAllowListCIDR(k, rawCIDR)
 		if err != nil {
-			return nil, fmt.Errorf("config `%s` has invalid CIDR: %s. %w", k, rawCIDR, err)
+			return nil, err
 		}
 
-		remoteAllowRanges.Insert(netip.PrefixFrom(ipNet.Addr().Unmap(), ipNet.Bits()), allowList)
+		remoteAllowRanges.Insert(ipNet, allowList)
 	}
 
 	return remoteAllowRanges, nil
@@ -241,7 +258,7 @@ func (al *AllowList) Allow(addr netip.Addr) bool {
 		return true
 	}
 
-	result, _ := al.cidrTree.Lookup(addr)
+	result, _ := al.cidrTree.Lookup(addr.Unmap())
 	return result
 }
 
@@ -297,7 +314,7 @@ func (al *RemoteAllowList) AllowAll(vpnAddrs []netip.Addr, udpAddr netip.Addr) b
 
 func (al *RemoteAllowList) getInsideAllowList(vpnAddr netip.Addr) *AllowList {
 	if al.insideAllowLists != nil {
-		inside, ok := al.insideAllowLists.Lookup(vpnAddr)
+		inside, ok := al.insideAllowLists.Lookup(vpnAddr.Unmap())
 		if ok {
 			return inside
 		}
